@@ -666,6 +666,10 @@ func (p *parser) parseOperand(cond bool) (Expr, *SyntaxError) {
 		}
 		return ValueRef{t.text}, nil
 	case tIdent:
+		if cond && isKw(t, "NOT") {
+			// "x = NOT y": a negated condition in operand position
+			return nil, serr(ReasonBoolOperand, "NOT where an operand is expected at %d", t.pos)
+		}
 		if cond && isAnyKw(t, condKeywords) || !cond && isAnyKw(t, updKeywords) {
 			return nil, serr(ReasonDangling, "keyword %q where an operand is expected at %d", t.text, t.pos)
 		}
